@@ -147,10 +147,11 @@ def direct(
         rt.note("FAIL: instance graph differs:", iso.why)
         ok = False
     reach = _reachable(g.root)
-    for n in g.nodes:
-        # nodes reached only through pre-task links
-        if not any(n is r for r in reach):
-            reach.append(n)
+    for n in g.extra.get("pre", []):
+        # pre-tasks (and what they hold) are reached through pre-task links only
+        for r2 in _reachable(n):
+            if not any(r2 is r for r in reach):
+                reach.append(r2)
     # one instance per reachable configuration, each post-initialised once
     for c in reach:
         o = store.retrieve(id(c))
